@@ -109,6 +109,18 @@ impl ErrorContext {
         rendered.fmt(f)
     }
 
+    /// Path of the file holding the failed entry, for verification harness.
+    #[cfg(okane_verif)]
+    pub fn verif_path(&self) -> &std::path::Path {
+        &self.path
+    }
+
+    /// First line of the failed entry, for verification harness.
+    #[cfg(okane_verif)]
+    pub fn verif_line_start(&self) -> usize {
+        self.line_start
+    }
+
     pub(super) fn new(
         renderer: annotate_snippets::Renderer,
         path: PathBuf,
